@@ -27,7 +27,9 @@ EXTENDS Integers, Sequences, FiniteSets, TLC, Json
 
 CONSTANTS NNames,      \* names are 1..NNames
           MaxOps,      \* length of the histories
-          WithHist     \* TRUE: keep and emit histories
+          WithHist,    \* TRUE: keep and emit histories
+          Part         \* 0: all histories; 1..4: only those starting with Push / Pop / Define / Resolve
+                       \* (the emission run of the thorough tier is split into four TLC runs)
 
 Names == 1..NNames
 None == -1
@@ -100,11 +102,13 @@ Resolve(n) ==
 Used == IF WithHist THEN {hist[i].n : i \in 1..Len(hist)} \ {0} ELSE Names
 Fresh(n) == n <= Cardinality(Used) + 1
 
+First(k) == Part = 0 \/ nops > 0 \/ Part = k
+
 Next == /\ nops < MaxOps
-        /\ \/ Push
-           \/ Pop
-           \/ \E n \in Names : Fresh(n) /\ Define(n)
-           \/ \E n \in Names : Fresh(n) /\ Resolve(n)
+        /\ \/ (First(1) /\ Push)
+           \/ (First(2) /\ Pop)
+           \/ \E n \in Names : First(3) /\ Fresh(n) /\ Define(n)
+           \/ \E n \in Names : First(4) /\ Fresh(n) /\ Resolve(n)
 
 Spec == Init /\ [][Next]_vars
 
@@ -171,14 +175,16 @@ TypeOK == /\ Len(stack) >= 1
 ---------------------------------------------------------------------------
 (* Emission (always TRUE; state CONSTRAINT): one case per history of length *)
 (* MaxOps.  Shorter histories are prefixes of these.                        *)
-NameStr(n) == IF n = 0 THEN "" ELSE <<"a", "b", "c", "d", "e">>[n]
+\* compact encoding of a history entry: <<op, name, found, scope, index>> with
+\* op 1 push, 2 pop, 3 define, 4 resolve; scope 0 none, 1 GLOBAL, 2 LOCAL
+OpNum(o) == CASE o = "push" -> 1 [] o = "pop" -> 2 [] o = "def" -> 3 [] o = "res" -> 4
+ScopeNum(sc) == CASE sc = "" -> 0 [] sc = "GLOBAL" -> 1 [] sc = "LOCAL" -> 2
 Emit ==
   (WithHist /\ nops = MaxOps) =>
     PrintT(ToJson([ops |-> [i \in 1..Len(hist) |->
-                              [op |-> hist[i].op, n |-> NameStr(hist[i].n), found |-> hist[i].found,
-                               scope |-> hist[i].scope, index |-> hist[i].index]],
+                              <<OpNum(hist[i].op), hist[i].n, IF hist[i].found THEN 1 ELSE 0,
+                                ScopeNum(hist[i].scope), hist[i].index>>],
                    globals |-> GlobalCount,
                    maxlocal |-> maxLocal,
-                   speclocals |-> LocalCount,
-                   depth |-> Len(stack) - 1]))
+                   speclocals |-> LocalCount]))
 =============================================================================
